@@ -137,6 +137,19 @@ class _NoTruth:
     raise ValueError('truth value of an element-wise comparison is ambiguous')
 
 
+class NoTruthValue:
+  """A value without a truth value (like a numpy array with several elements, or pandas.NA)."""
+
+  def __bool__(self):
+    raise ValueError('The truth value of an array with more than one element is ambiguous')
+
+  def __repr__(self):
+    return 'NO_TRUTH'
+
+
+NO_TRUTH = NoTruthValue()
+
+
 class Arrayish:
   """Element-wise == without a truth value (like a numpy array)."""
 
@@ -263,7 +276,11 @@ FAMILIES = {
     'baseexc': lambda: BaseExc('base failure'),
     'assertion': lambda: AssertionError('assertion failed'),
     'localclass': _dyn_exc,
+    # an exception object that escaped from an earlier fdl.build of another configuration (it
+    # already carries that build's Fiddle context), raised again by this callable
+    'redecorated': lambda: PRESET_EXC[0],
 }
+PRESET_EXC = [None]
 
 
 def raiser(x=None, family='plain', y='d_y', child=None, bad=None):
@@ -278,6 +295,11 @@ def raiser(x=None, family='plain', y='d_y', child=None, bad=None):
     LAST_RAISED.append(exc)
     raise exc
   return rec
+
+
+def raiser_po(family, bad=None, /, x=None, y='d_y', child=None):
+  """`raiser` with the family and the hostile value passed positionally."""
+  return raiser(x=x, family=family, y=y, child=child, bad=bad)
 
 
 NESTED_TARGET = None
@@ -383,6 +405,21 @@ _SINGLE_DEFAULT = ['single-default']
 _NEST_DEFAULT = {'k': ['nested-default']}
 
 
+class Pool:
+  """A plain object compared by identity (no __eq__): used as a sentinel default."""
+
+  def __repr__(self):
+    return 'DEFAULT_POOL' if self is DEFAULT_POOL else 'Pool()'
+
+
+DEFAULT_POOL = Pool()
+
+
+def pooled(x=None, pool=DEFAULT_POOL, child=None):
+  """A parameter whose default is a sentinel object compared by identity."""
+  return record('pooled', {'x': x, 'pool': 'default-pool' if pool is DEFAULT_POOL else 'other-pool', 'child': child})
+
+
 def mutnest(a=_NEST_DEFAULT, c=(1, 2), other=None):
   """A nested mutable default (a dict holding a list)."""
   return record('mutnest', {'a': a, 'c': c, 'other': other})
@@ -463,6 +500,18 @@ class Mode(enum.Enum):
   """Unrelated top-level enum with the same member names as Outer.Mode."""
   FAST = 'top-fast'
   SLOW = 'top-slow'
+
+
+class Prec(enum.IntEnum):
+  """An enum whose members are ints as well."""
+  HALF = 16
+  FULL = 32
+
+
+class Kind(str, enum.Enum):
+  """An enum whose members are strings as well."""
+  DENSE = 'dense'
+  SPARSE = 'sparse'
 
 
 def mutating(x=None, child=None):
@@ -578,6 +627,12 @@ class SubCM(BaseCM):
 HALF = 0.5
 ADAM = 'adam'
 PAIR34 = (3, 4)
+
+
+# a module-level constant that *is* registrable by value, and that compares equal to a JSON
+# primitive of another type (Fraction(3, 2) == 1.5, with equal hashes)
+import fractions as _fractions
+FRAC_3_2 = _fractions.Fraction(3, 2)
 
 
 class StrSub(str):
